@@ -159,7 +159,7 @@ Proof.
   apply np_bind; [apply char_from_np|auto].
 Qed.
 
-Lemma build_attdefs_np l : np (build_attdefs l).
+Lemma build_attdefs_np acc xt l : np (build_attdefs acc xt l).
 Proof.
   induction l as [|d l IH]; cbn [build_attdefs]; auto with np.
   apply np_bind; [|intros x; apply np_bind; [exact IH|auto with np]].
@@ -168,14 +168,14 @@ Proof.
   destruct (ad_value d); auto with np. apply np_bind; [apply build_avalues_np|auto with np].
 Qed.
 
-Lemma build_subset_np l : np (build_subset false l).
+Lemma build_subset_np xt l : forall acc, np (build_subset false xt acc l).
 Proof.
-  induction l as [|x l IH]; cbn [build_subset]; auto with np.
-  destruct x as [[d|d|[n d|n d]|d|p|s]|n|s]; auto with np;
-    try (apply np_bind; [exact IH|auto with np]).
-  - apply np_bind; [|intros a; apply np_bind; [exact IH|auto with np]].
+  induction l as [|y l IH]; intros acc; cbn [build_subset]; auto with np.
+  destruct y as [[d|d|[n d|n d]|d|p|s]|n|s]; auto with np;
+    try (apply np_bind; [apply IH|auto with np]).
+  - apply np_bind; [|intros a; apply np_bind; [apply IH|auto with np]].
     unfold build_attlist. apply np_bind; [apply build_attdefs_np|auto with np].
-  - apply np_bind; [|intros _; apply np_bind; [exact IH|auto with np]].
+  - apply np_bind; [|intros _; apply np_bind; [apply IH|auto with np]].
     destruct d; cbn [check_entity_decl]; auto with np. apply check_entity_values_np.
 Qed.
 
@@ -218,7 +218,7 @@ Proof.
 Qed.
 
 (** entity expansion of the repaired code never panics either *)
-Lemma expand_values_np rec vs : (forall n, np (rec n)) -> np (expand_values rec false vs).
+Lemma expand_values_np rec ia vs : (forall n, np (rec n)) -> np (expand_values rec false ia vs).
 Proof.
   intros Hr. induction vs as [|v vs IH]; cbn [expand_values]; auto with np.
   apply np_bind; [|intros a; apply np_bind; [exact IH|auto with np]].
@@ -226,7 +226,7 @@ Proof.
   apply np_bind; [apply char_from_np|auto with np].
 Qed.
 
-Lemma expand_gen_np checked : forall fuel ents path name, np (expand_gen checked false fuel ents path name).
+Lemma expand_gen_np checked ia : forall fuel ents path name, np (expand_gen checked false ia fuel ents path name).
 Proof.
   induction fuel as [|f IH]; intros; cbn [expand_gen]; auto with np.
   apply np_if; auto with np.
